@@ -110,7 +110,12 @@ impl Quantile {
             if index < len - 1 {
                 // `q[index]` and `q[index + 1]` are equally valid estimates,
                 // by convention we take their average.
-                return 0.5 * heights[index] + 0.5 * heights[index + 1];
+                // Halving the sum keeps the result between the two values even among
+                // subnormals (halving each value first rounds twice); only a sum that
+                // overflows has to be formed from the halves.
+                let (a, b) = (heights[index], heights[index + 1]);
+                let sum = a + b;
+                return if sum.is_finite() { 0.5 * sum } else { 0.5 * a + 0.5 * b };
             }
         }
         index = index.max(0.);
